@@ -5,7 +5,10 @@
 use crate::mccore::{prf_fill, Json};
 use crate::net::{new_net, now_us, ChoiceAlloc, Dgram, Schedule};
 use bach::ext::*;
-use s2n_quic_dc::stream::testing::{Client, Reader, Server, Writer};
+use s2n_quic_dc::event;
+use s2n_quic_dc::stream::recv::application::Reader;
+use s2n_quic_dc::stream::send::application::Writer;
+use s2n_quic_dc::stream::testing::{Client, Server};
 use std::panic::{catch_unwind, AssertUnwindSafe};
 use std::sync::{Arc, Mutex};
 use std::time::Duration;
@@ -51,6 +54,39 @@ impl Order {
     }
 }
 
+/// how the schedule of a tcp scenario is indexed (see tcp.rs)
+#[derive(Clone, Copy, Debug, PartialEq, Eq)]
+pub enum TcpMode {
+    /// index = socket-call index (global order of the answerable recv/send calls of both endpoints)
+    Calls,
+    /// index = byte offset in the wire stream of one direction
+    Bytes,
+}
+
+/// the harness-owned TCP connection of a tcp scenario
+#[derive(Clone, Debug, PartialEq, Eq)]
+pub struct TcpParams {
+    pub mode: TcpMode,
+    /// bytes one direction of the connection buffers (send buffer + receive buffer); a write accepts
+    /// at most the free space and is `Pending` when there is none
+    pub cap: usize,
+    /// default answer of a read: at most this many bytes (usize::MAX = everything available)
+    pub rx_chunk: usize,
+    /// default answer of a write: at most this many bytes accepted
+    pub tx_chunk: usize,
+    /// the client writes an empty prelude right after opening (as `testing::Client::connect_to`
+    /// does); without it the first packet on the wire is the first data packet
+    pub prelude: bool,
+    /// both readers pause this long before every read (0 = as the operation order says)
+    pub pause_ms: u64,
+}
+
+impl TcpParams {
+    pub fn new(mode: TcpMode) -> TcpParams {
+        TcpParams { mode, cap: 1 << 20, rx_chunk: usize::MAX, tx_chunk: usize::MAX, prelude: true, pause_ms: 0 }
+    }
+}
+
 #[derive(Clone, Debug)]
 pub struct Scenario {
     pub name: String,
@@ -63,13 +99,55 @@ pub struct Scenario {
     pub server_mtu: u16,
     /// virtual-time horizon for every application task, ms
     pub horizon_ms: u64,
+    /// Some = the stream runs over the harness-owned TCP connection (family tcp), None = UDP on bach's network
+    pub tcp: Option<TcpParams>,
+}
+
+fn chunk_name(c: usize) -> String {
+    if c == usize::MAX {
+        "all".into()
+    } else {
+        c.to_string()
+    }
 }
 
 impl Scenario {
     pub fn new(req: usize, resp: usize, rbuf: usize, order: Order, mtu: u16) -> Scenario {
-        Scenario { name: format!("{}-req{}-resp{}-rbuf{}-mtu{}", order.code(), req, resp, rbuf, mtu), req, resp, rbuf, order, client_mtu: mtu, server_mtu: mtu, horizon_ms: 100_000 }
+        Scenario { name: format!("{}-req{}-resp{}-rbuf{}-mtu{}", order.code(), req, resp, rbuf, mtu), req, resp, rbuf, order, client_mtu: mtu, server_mtu: mtu, horizon_ms: 100_000, tcp: None }
+    }
+    pub fn new_tcp(req: usize, resp: usize, rbuf: usize, order: Order, p: TcpParams) -> Scenario {
+        let mut s = Scenario::new(req, resp, rbuf, order, 1500);
+        s.name = format!(
+            "tcp/{}-{}-req{}-resp{}-rbuf{}-cap{}-rx{}-tx{}{}{}",
+            if p.mode == TcpMode::Calls { "calls" } else { "bytes" },
+            order.code(),
+            req,
+            resp,
+            rbuf,
+            p.cap,
+            chunk_name(p.rx_chunk),
+            chunk_name(p.tx_chunk),
+            if p.prelude { "" } else { "-nopre" },
+            if p.pause_ms > 0 { format!("-pause{}ms", p.pause_ms) } else { String::new() }
+        );
+        s.tcp = Some(p);
+        s
     }
     pub fn describe(&self) -> Json {
+        let j = self.describe_base();
+        match &self.tcp {
+            None => j,
+            Some(p) => j
+                .set("transport", "tcp")
+                .set("tcp_mode", if p.mode == TcpMode::Calls { "calls" } else { "bytes" })
+                .set("tcp_cap", p.cap)
+                .set("tcp_rx_chunk", if p.rx_chunk == usize::MAX { 0 } else { p.rx_chunk })
+                .set("tcp_tx_chunk", if p.tx_chunk == usize::MAX { 0 } else { p.tx_chunk })
+                .set("tcp_prelude", p.prelude)
+                .set("tcp_pause_ms", p.pause_ms),
+        }
+    }
+    fn describe_base(&self) -> Json {
         Json::obj()
             .set("name", self.name.as_str())
             .set("request_bytes", self.req)
@@ -121,7 +199,7 @@ pub struct AppEv {
 pub struct Log(pub Arc<Mutex<Vec<AppEv>>>);
 
 impl Log {
-    fn push(&self, side: u8, half: char, ev: Ev) {
+    pub fn push(&self, side: u8, half: char, ev: Ev) {
         self.0.lock().unwrap().push(AppEv { t: now_us(), side, half, ev });
     }
 }
@@ -136,10 +214,21 @@ pub struct Record {
     pub blackhole_since: Option<u64>,
     pub forget_at: Option<u64>,
     pub max_dgram_len: usize,
+    // ---- tcp family
+    /// every answerable socket call in global order
+    pub calls: Vec<crate::tcp::Call>,
+    /// wire bytes written per direction (0 = client->server)
+    pub wire_len: [u64; 2],
+    /// wire offsets at which a buffer handed to `poll_send` ended (= dc packet boundaries)
+    pub bounds: [Vec<u64>; 2],
+    /// virtual time at which the connection was severed / cut
+    pub sever_t: Option<u64>,
+    /// a byte-offset cut (CutEof / CutReset / CutQuiet) was reached: the writer had more to send
+    pub cut_hit: bool,
 }
 
 /// where the last panic of this process happened (the payload of a panic does not carry it)
-static LAST_PANIC_AT: Mutex<Option<String>> = Mutex::new(None);
+pub static LAST_PANIC_AT: Mutex<Option<String>> = Mutex::new(None);
 
 /// silence the default panic output (panics are outcomes to record) but remember the location
 pub fn install_panic_hook() {
@@ -158,12 +247,12 @@ pub fn install_panic_hook() {
     }));
 }
 
-fn err_string(e: &std::io::Error) -> String {
+pub fn err_string(e: &std::io::Error) -> String {
     format!("{:?}", e.kind())
 }
 
 /// write `total` PRF bytes; `stop_at` = drop the writer (return it to the caller for dropping) after that many bytes
-async fn run_writer(mut w: Writer, key: u64, total: usize, stop_at: Option<usize>, with_fin: bool, side: u8, log: Log) {
+async fn run_writer<Sub: event::Subscriber>(mut w: Writer<Sub>, key: u64, total: usize, stop_at: Option<usize>, with_fin: bool, side: u8, log: Log) {
     if with_fin {
         let buf = crate::mccore::prf_vec(key, 0, total);
         let mut slice = &buf[..];
@@ -228,7 +317,7 @@ async fn run_writer(mut w: Writer, key: u64, total: usize, stop_at: Option<usize
 }
 
 /// read until EOF / error with a buffer of `rbuf` bytes, comparing every byte with the PRF
-async fn run_reader(mut r: Reader, key: u64, rbuf: usize, pause: Duration, stop_at: Option<usize>, side: u8, log: Log) {
+async fn run_reader<Sub: event::Subscriber>(mut r: Reader<Sub>, key: u64, rbuf: usize, pause: Duration, stop_at: Option<usize>, side: u8, log: Log) {
     let mut buf = vec![0u8; rbuf];
     let mut off = 0u64;
     loop {
@@ -274,13 +363,61 @@ async fn run_reader(mut r: Reader, key: u64, rbuf: usize, pause: Duration, stop_
     log.push(side, 'r', Ev::Done);
 }
 
-async fn with_horizon<F: core::future::Future<Output = ()>>(f: F, horizon: Duration, side: u8, half: char, log: Log) {
+pub async fn with_horizon<F: core::future::Future<Output = ()>>(f: F, horizon: Duration, side: u8, half: char, log: Log) {
     if bach::time::timeout(horizon, f).await.is_err() {
         log.push(side, half, Ev::Timeout);
     }
 }
 
+fn reader_pause(scn: &Scenario) -> Duration {
+    if let Some(p) = &scn.tcp {
+        if p.pause_ms > 0 {
+            return Duration::from_millis(p.pause_ms);
+        }
+    }
+    if scn.order == Order::EarlyShutdown {
+        Duration::from_millis(1)
+    } else {
+        Duration::ZERO
+    }
+}
+
+/// the client application's script on an open stream (shared by the UDP and the TCP families)
+pub async fn client_app<Sub: event::Subscriber>(r: Reader<Sub>, w: Writer<Sub>, scn: Scenario, horizon: Duration, log: Log) {
+    let slow = reader_pause(&scn);
+    let wstop = if scn.order == Order::DropWriter { Some(scn.req / 2) } else { None };
+    let rstop = if scn.order == Order::DropReader { Some(scn.resp / 2) } else { None };
+    let wt = run_writer(w, KEY_REQ, scn.req, wstop, scn.order == Order::SeqFin, CLIENT, log.clone());
+    let rd = run_reader(r, KEY_RESP, scn.rbuf, slow, rstop, CLIENT, log.clone());
+    if matches!(scn.order, Order::Seq | Order::SeqFin) {
+        wt.await;
+        rd.await;
+    } else {
+        let h = with_horizon(wt, horizon, CLIENT, 'w', log.clone()).primary().spawn();
+        rd.await;
+        let _ = h.await;
+    }
+}
+
+/// the server application's script on an accepted stream
+pub async fn server_app<Sub: event::Subscriber>(r: Reader<Sub>, w: Writer<Sub>, scn: Scenario, horizon: Duration, log: Log) {
+    let slow = reader_pause(&scn);
+    let rd = run_reader(r, KEY_REQ, scn.rbuf, slow, None, SERVER, log.clone());
+    let wt = run_writer(w, KEY_RESP, scn.resp, None, scn.order == Order::SeqFin, SERVER, log.clone());
+    if matches!(scn.order, Order::Seq | Order::SeqFin) {
+        rd.await;
+        wt.await;
+    } else {
+        let h = with_horizon(wt, horizon, SERVER, 'w', log.clone()).primary().spawn();
+        rd.await;
+        let _ = h.await;
+    }
+}
+
 pub fn execute(scn: &Scenario, schedule: &Schedule) -> Record {
+    if scn.tcp.is_some() {
+        return s2n_quic_dc::testing::without_tracing(|| crate::tcp::execute_tcp(scn, schedule));
+    }
     s2n_quic_dc::testing::without_tracing(|| execute_inner(scn, schedule))
 }
 
@@ -323,19 +460,7 @@ fn execute_inner(scn: &Scenario, schedule: &Schedule) -> Record {
                             }
                         };
                         let (r, w) = stream.into_split();
-                        let slow = if scn.order == Order::EarlyShutdown { Duration::from_millis(1) } else { Duration::ZERO };
-                        let wstop = if scn.order == Order::DropWriter { Some(scn.req / 2) } else { None };
-                        let rstop = if scn.order == Order::DropReader { Some(scn.resp / 2) } else { None };
-                        let wt = run_writer(w, KEY_REQ, scn.req, wstop, scn.order == Order::SeqFin, CLIENT, log.clone());
-                        let rd = run_reader(r, KEY_RESP, scn.rbuf, slow, rstop, CLIENT, log.clone());
-                        if matches!(scn.order, Order::Seq | Order::SeqFin) {
-                            wt.await;
-                            rd.await;
-                        } else {
-                            let h = with_horizon(wt, horizon, CLIENT, 'w', log.clone()).primary().spawn();
-                            rd.await;
-                            let _ = h.await;
-                        }
+                        client_app(r, w, scn, horizon, log).await;
                     },
                     horizon,
                     CLIENT,
@@ -381,17 +506,7 @@ fn execute_inner(scn: &Scenario, schedule: &Schedule) -> Record {
                     let handler = with_horizon(
                         async move {
                             let (r, w) = stream.into_split();
-                            let slow = if scn.order == Order::EarlyShutdown { Duration::from_millis(1) } else { Duration::ZERO };
-                            let rd = run_reader(r, KEY_REQ, scn.rbuf, slow, None, SERVER, log.clone());
-                            let wt = run_writer(w, KEY_RESP, scn.resp, None, scn.order == Order::SeqFin, SERVER, log.clone());
-                            if matches!(scn.order, Order::Seq | Order::SeqFin) {
-                                rd.await;
-                                wt.await;
-                            } else {
-                                let h = with_horizon(wt, horizon, SERVER, 'w', log.clone()).primary().spawn();
-                                rd.await;
-                                let _ = h.await;
-                            }
+                            server_app(r, w, scn, horizon, log).await;
                         },
                         horizon,
                         SERVER,
